@@ -253,7 +253,7 @@ func buildSteps(spec *CaseSpec, dir string) ([]dag.Step, map[string]*dag.Step, [
 			st.Preconditions = append(st.Preconditions, dag.Condition{Condition: precondText(s), Expected: precondExpect(s)})
 		} else if s.HasPrecond {
 			for i := 0; i < precondN(s); i++ {
-				st.Preconditions = append(st.Preconditions, dag.Condition{Condition: "$" + precondEnv(spec.ID, s.Name, i), Expected: "1"})
+				st.Preconditions = append(st.Preconditions, dag.Condition{Condition: "$" + precondEnv(spec.ID, s.Name, i), Expected: precondWant(s)})
 			}
 		}
 		if s.SetupFail {
@@ -304,6 +304,14 @@ func precondText(s *StepSpec) string {
 	return "$" + s.PrecondVar
 }
 
+// precondWant is the expected value of the step's generic conditions.
+func precondWant(s *StepSpec) string {
+	if s.PrecondEmpty {
+		return ""
+	}
+	return "1"
+}
+
 func precondExpect(s *StepSpec) string {
 	if s.PrecondExpect != "" {
 		return s.PrecondExpect
@@ -321,7 +329,7 @@ func setPrecondEnv(spec *CaseSpec) {
 	for _, s := range spec.Steps {
 		if s.HasPrecond && s.PrecondVar == "" && s.PrecondText == "" {
 			for i := 0; i < precondN(s); i++ {
-				v := "1"
+				v := precondWant(s)
 				if s.PrecondUnmet && i == s.PrecondBadAt%precondN(s) {
 					v = "0"
 				}
@@ -440,7 +448,7 @@ func BuildYAML(spec *CaseSpec, dir string) string {
 		} else if s.HasPrecond {
 			fmt.Fprintf(&b, "    preconditions:\n")
 			for i := 0; i < precondN(s); i++ {
-				fmt.Fprintf(&b, "      - condition: %s\n        expected: \"1\"\n", q("$"+precondEnv(spec.ID, s.Name, i)))
+				fmt.Fprintf(&b, "      - condition: %s\n        expected: %s\n", q("$"+precondEnv(spec.ID, s.Name, i)), q(precondWant(s)))
 			}
 		}
 		if s.SignalOnStop != "" {
